@@ -342,7 +342,21 @@ def run(ctx) -> None:
                         while isinstance(x_, ast.UnaryOp) and isinstance(x_.op, ast.USub):
                             x_, sg_ = x_.operand, -sg_
                     if isinstance(x_, ast.Name):
-                        return norm(e_.func.value), x_.id, sg_
+                        # an unmodified copy / alias of another vector is that vector
+                        nm_ = x_.id
+                        for _i in range(3):
+                            if nm_ in S3._mutated:
+                                break
+                            dd_ = du.single_def(nm_, cfg.node(st_))
+                            v2_ = dd_.value if dd_ is not None and dd_.kind == "assign" else None
+                            if isinstance(v2_, ast.Call) and ((isinstance(v2_.func, ast.Attribute) and v2_.func.attr == "copy" and isinstance(v2_.func.value, ast.Name) and not v2_.args)
+                                                              or (call_name(v2_) in ("np.array", "np.copy", "np.asarray") and len(v2_.args) == 1 and isinstance(v2_.args[0], ast.Name))):
+                                nm_ = v2_.func.value.id if isinstance(v2_.func, ast.Attribute) and v2_.func.attr == "copy" else v2_.args[0].id
+                            elif isinstance(v2_, ast.Name):
+                                nm_ = v2_.id
+                            else:
+                                break
+                        return norm(e_.func.value), nm_, sg_
                 return None
             la_, lb_ = lookup_arg(qa[0], a), lookup_arg(qb[0], b)
             if la_ is not None and lb_ is not None and la_[0] == lb_[0]:
@@ -447,6 +461,10 @@ def run(ctx) -> None:
 from ..selftest import V  # noqa: E402
 
 SELFTEST = [
+    V("partner stored at the negative of another vector (seeded C32-m6)", "wannierberri/system/system_tb_py.py", "            iR = system.rvec.iR(R)\n",
+      "            R_home = R.copy()\n            R_home[:dimr] += 0\n            iR = system.rvec.iR(R_home)\n", "fire", "R32.3"),
+    V("partner index through an unmodified copy of the vector", "wannierberri/system/system_tb_py.py", "            inR = system.rvec.iR(-R)\n",
+      "            R_neg = R.copy()\n            inR = system.rvec.iR(-R_neg)\n", "silent", "R32.3"),
     V("parameter shadowed by a constant (original defect)", MD, "    t2 = hop2 * np.exp(1.j * phi)\n    t2c = t2.conjugate()\n\n    my_model.set_onsite",
       "    delta = 0.2\n    t2 = hop2 * np.exp(1.j * phi)\n    t2c = t2.conjugate()\n\n    my_model.set_onsite", "fire", "R32.1"),
     V("phase parameter never used", MD,
